@@ -146,6 +146,9 @@ class SymExprScenario(explore.Scenario):
             out.append(["delitem", k])
             out.append(["pop", k])
             out.append(["popdefault", k])
+            for dn in ("none", "zero"):
+                out.append(["popnone", k, dn])
+                out.append(["getnone", k, dn])
         out.append(["popitem"])
         out.append(["clear"])
         ex = self.exprs
@@ -228,6 +231,17 @@ class SymExprScenario(explore.Scenario):
                 want = sh.pop(op[1], "DEFAULT")
                 r = d.pop(op[1], "DEFAULT")
                 got = r if r == "DEFAULT" else nm(r)
+            elif kind == "popnone":
+                # the default the caller passes is None / falsy itself
+                dflt = None if op[2] == "none" else 0
+                want = sh.pop(op[1], dflt)
+                r = d.pop(op[1], dflt)
+                got = r if (r is None or r == 0) else nm(r)
+            elif kind == "getnone":
+                dflt = None if op[2] == "none" else 0
+                want = sh.get(op[1], dflt)
+                r = d.get(op[1], dflt)
+                got = r if (r is None or r == 0) else nm(r)
             elif kind == "popitem":
                 if not sh:
                     want_exc = "KeyError"
